@@ -67,7 +67,7 @@ def _run(ctx, binary, tmp):
     n = 100 if quick else 4000
     r = vlib.run_tlc(ctx, "MCWAL", "WAL_sim.cfg", mode="simulate", simulate=n, depth=40, tags=("TRACE",), timeout=1800)
     vlib.require_model_ok(r, "WAL_sim")
-    ctx.add_tlc(r, "simulate <=30 steps, <=12 files, markers 0..6")
+    ctx.add_tlc(r, "simulate <=30 steps, <=12 files, markers 0..8")
     replay(ctx, binary, r.traces, "simulation", tmp)
     ctx.cov["exhaustive"] = True
     ctx.assumptions += [
